@@ -15,9 +15,9 @@ CONSTANTS MaxOps, G_DecAlways, G_CountFailure, G_AttemptFirst
 VARIABLES open, m, g, n, hist
 vars == <<open, m, g, n, hist>>
 
-Init == open = FALSE /\ n = 0 /\ hist = <<>>
+Init == open = "closed" /\ n = 0 /\ hist = <<>>
         /\ m = [attempts |-> 0, failures |-> 0, gauge |-> 0, cmdAttempts |-> 0, cmdFailures |-> 0]
-        /\ g = [tried |-> 0, failed |-> 0, opened |-> 0, closed |-> 0, cmds |-> 0, cmdErrs |-> 0]
+        /\ g = [tried |-> 0, failed |-> 0, opened |-> 0, closed |-> 0, reclosed |-> 0, cmds |-> 0, cmdErrs |-> 0]
 
 Do(op) ==
   /\ n < MaxOps /\ n' = n + 1 /\ hist' = Append(hist, op)
@@ -26,25 +26,27 @@ Do(op) ==
            failed |-> g.failed + (IF IsOpenTry(op) /\ Fails(op) THEN 1 ELSE 0),
            opened |-> g.opened + (IF op = "openOK" THEN 1 ELSE 0),
            closed |-> g.closed + (IF IsClose(op) THEN 1 ELSE 0),
+           reclosed |-> g.reclosed + (IF IsReClose(op) THEN 1 ELSE 0),
            cmds |-> g.cmds + (IF ~IsOpenTry(op) THEN 1 ELSE 0),            \* Close Session is a command too
            cmdErrs |-> g.cmdErrs + (IF ~IsOpenTry(op) /\ Fails(op) THEN 1 ELSE 0)]
   /\ m' = [attempts |-> m.attempts + (IF IsOpenTry(op) /\ (G_AttemptFirst \/ op # "openFailStatus") THEN 1 ELSE 0),
            failures |-> m.failures + (IF IsOpenTry(op) /\ Fails(op) /\ (G_CountFailure \/ op # "openFailPw") THEN 1 ELSE 0),
-           gauge |-> m.gauge + (IF op = "openOK" THEN 1 ELSE 0) - (IF IsClose(op) /\ (G_DecAlways \/ op = "closeOK") THEN 1 ELSE 0),
+           gauge |-> m.gauge + (IF op = "openOK" THEN 1 ELSE 0) - (IF IsClose(op) /\ (G_DecAlways \/ op \in {"closeOK", "closeAgainOK"}) THEN 1 ELSE 0),
            cmdAttempts |-> m.cmdAttempts + (IF ~IsOpenTry(op) THEN 1 ELSE 0),
            cmdFailures |-> m.cmdFailures + (IF ~IsOpenTry(op) /\ Fails(op) THEN 1 ELSE 0)]
 
 Next == \E i \in 1..Len(Legal(open)) : Do(Legal(open)[i])
 Spec == Init /\ [][Next]_vars
 
-TypeOK == open \in BOOLEAN /\ n \in 0..MaxOps
-\* the gauge equals opens minus closes, and that is whether a session is in use
-C18_Gauge == m.gauge = g.opened - g.closed /\ m.gauge = (IF open THEN 1 ELSE 0)
+TypeOK == open \in {"closed", "open", "failed"} /\ n \in 0..MaxOps
+\* the gauge equals opens minus closes; as long as no Close was repeated that is whether a session is in use, and every
+\* repeated Close of one session takes it one further down
+C18_Gauge == m.gauge = g.opened - g.closed /\ m.gauge = (IF open = "open" THEN 1 ELSE 0) - g.reclosed
 C18_Opens == m.attempts = g.tried /\ m.failures = g.failed
 C18_Commands == m.cmdAttempts = g.cmds /\ m.cmdFailures = g.cmdErrs
 \* the generator's paths are exactly the behaviours: what happened so far is a legal path, and the state a path leads to
 \* is the state the machine is in
 RECURSIVE IsPath(_, _)
 IsPath(o, p) == p = <<>> \/ ((\E i \in 1..Len(Legal(o)) : Legal(o)[i] = Head(p)) /\ IsPath(After(o, Head(p)), Tail(p)))
-C18_PathsAgree == IsPath(FALSE, hist) /\ OpenAfter(FALSE, hist) = open /\ Len(hist) = n
+C18_PathsAgree == IsPath("closed", hist) /\ OpenAfter("closed", hist) = open /\ Len(hist) = n
 =============================================================================
